@@ -27,7 +27,9 @@ Over(c) == LET L == c.limit IN
    << Huge(D(c, TRUE, 3), "top") >>,
    << D(c, FALSE, 1), Huge(C(c, TRUE, 3), "max") >>,
    << D(c, FALSE, 0), Huge(C(c, TRUE, 3), "max") >>,
-   << D(c, FALSE, 1), Huge(C(c, TRUE, 3), "top") >>}
+   << D(c, FALSE, 1), Huge(C(c, TRUE, 3), "top") >>,
+   << [D(c, TRUE, 268435456) EXCEPT !.short = 4] >>,
+   << D(c, FALSE, 1), [C(c, TRUE, 268435456) EXCEPT !.short = 3] >>}
 
 MCStreams(c) == {h \o t \o a : h \in UpTo(Within(c), Hist), t \in Within(c) \cup Over(c),
                                a \in {<< >>, << D(c, TRUE, 1) >>}}
